@@ -87,6 +87,10 @@ step_apply_quant_8!(apply_exists_edge, Q::Exists, 3, step_apply_exists_and, step
 step_apply_quant_8!(apply_unique_edge, Q::Unique, 3, step_apply_unique_and, step_apply_unique_or, step_apply_unique_nand,
     step_apply_unique_nor, step_apply_unique_xor, step_apply_unique_equiv, step_apply_unique_imp, step_apply_unique_imp_strict);
 lemma_canonical!(lemma_canonical);
+base_var_eval!(base_var_eval);
+step_apply_quant_deleg!(step_apply_exists_and_deleg, apply_exists_edge, Q::Exists, BooleanOperator::And, 4, |a, b| a & b);
+step_apply_quant_deleg!(step_apply_exists_xor_deleg, apply_exists_edge, Q::Exists, BooleanOperator::Xor, 4, |a, b| a ^ b);
+step_apply_quant_deleg!(step_apply_forall_nand_deleg, apply_forall_edge, Q::Forall, BooleanOperator::Nand, 4, |a, b| !(a & b));
 step_substitute!(step_substitute_v0, 3, 1, 0, 0);
 
 
@@ -114,4 +118,38 @@ fn probe_child0_by_ref() {
     assert!(s.wf_node(i), "HARNESS: well-formedness of a symbolically indexed node follows from the assumption");
     kani::cover!(s.init_c.get() == 2, "init 2 reachable");
     kani::cover!(s.init_c.get() == 4, "init 4 reachable");
+}
+
+// ---------------------------------------------------------------- C07 (narrow): multi-threaded apply algorithms
+pub mod mt {
+    use super::*;
+    pub type B = oxidd_rules_bdd::simple::BDDFunctionMT<KFunc>;
+    /// `depth`: split depth of the pool (1 = the top-level step forks, sub-calls are sequential)
+    macro_rules! mt_bin {
+        ($name:ident, $f:ident, $spec:expr) => {
+            #[kani::proof]
+            #[kani::unwind(3)]
+            fn $name() {
+                let mut s = setup_n(RANK_BIN, 3, AL_BIN);
+                s.pool.depth = kani::any();
+                kani::assume(s.pool.depth <= 2);
+                let f = sym::any_edge(&s, s.init_c.get());
+                let g = sym::any_edge(&s, s.init_c.get());
+                s.cache.top_level = s.min_level(&[f.borrowed(), g.borrowed()]);
+                let spec: fn(G, G) -> G = $spec;
+                let want = spec(s.g(&f), s.g(&g));
+                let r = B::$f(&s, &f, &g);
+                post_struct(&s, &r);
+                if let Ok(e) = &r {
+                    assert!(s.g(e) == want, "C07,C02: the multi-threaded algorithm returns the specified function for every serialisation of its fork/join");
+                }
+                kani::cover!(s.cache.adds.get() > 0 && r.is_ok(), "non-terminal path with cache insertion");
+                kani::cover!(s.cache.hits.get() >= 1, "oracle consulted");
+                kani::cover!(s.created.get() > 0, "node created");
+                kani::cover!(r.is_err(), "out-of-memory path");
+            }
+        };
+    }
+    mt_bin!(mt_and, and_edge, |a, b| a & b);
+    mt_bin!(mt_xor, xor_edge, |a, b| a ^ b);
 }
